@@ -123,27 +123,27 @@ Proof.
   - (* clear *)
     pose proof (clear_spec tr (wa w) (wl w) Ia) as H. cbv zeta in H.
     destruct (clear (wa w, wl w)) as [v' L']. cbn [fst snd] in *. destruct H as (H1 & H2 & H3 & H4 & H5 & H6).
-    apply post_single; auto; try lia. destruct F; lia.
+    apply post_single; auto; try lia; try (destruct F; lia).
   - (* erase(pos) *)
     pose proof (erase_one_spec tr i (wa w) (wl w) Ia ltac:(lia)) as H. cbv zeta in H.
     destruct (erase_one i (wa w, wl w)) as [[v' L'] ret]. cbn [fst snd] in *. destruct H as (H1 & H2 & H3 & H4 & H5).
     rewrite La. apply post_single; auto; try lia.
-    + size_of_abs H1 H2. rewrite zlen_app, zlen_firstn, zlen_skipn by lia. lia.
-    + intros Hs. apply H5. lia.
-    + intros Hs _. apply H5. lia.
+    all: try (intros Hs _; exact (proj2 (H5 ltac:(lia)))).
+    all: try (intros Hs; exact (proj1 (H5 ltac:(lia)))).
+    all: try (size_of_abs H1 H2; rewrite zlen_app, zlen_firstn, zlen_skipn by lia; lia).
   - (* erase(first, last) *)
     pose proof (erase_range_spec tr i j (wa w) (wl w) Ia ltac:(lia) ltac:(lia)) as H. cbv zeta in H.
     destruct (erase_range i j (wa w, wl w)) as [[v' L'] ret]. cbn [fst snd] in *. destruct H as (H1 & H2 & H3 & H4 & H5).
     rewrite La. apply post_single; auto; try lia.
-    + size_of_abs H1 H2. rewrite zlen_app, zlen_firstn, zlen_skipn by lia. lia.
-    + intros Hs. apply H5. lia.
-    + intros Hs _. apply H5. lia.
+    all: try (intros Hs _; exact (proj2 (H5 ltac:(lia)))).
+    all: try (intros Hs; exact (proj1 (H5 ltac:(lia)))).
+    all: try (size_of_abs H1 H2; rewrite zlen_app, zlen_firstn, zlen_skipn by lia; lia).
   - (* insert(pos, value) *)
     pose proof (insert_one_spec tr max_n k i t (wa w) (wl w) F Ia ltac:(lia) ltac:(lia)) as H. cbv zeta in H.
     destruct (insert_one tr k i t (wa w, wl w)) as [[v' L'] ret]. cbn [fst snd] in *. destruct H as (H1 & H2 & H3 & H4 & H5).
     apply post_single; auto; try lia.
-    + size_of_abs H1 H2. rewrite zlen_app, zlen_cons, zlen_firstn, zlen_skipn by lia. lia.
-    + intros; discriminate.
+    all: try (intros; discriminate).
+    all: try (size_of_abs H1 H2; rewrite zlen_app, zlen_cons, zlen_firstn, zlen_skipn by lia; lia).
   - (* insert(pos, n, value) *)
     pose proof (insert_list_spec tr max_n i (zrepeat t n) (wa w) (wl w) F Ia ltac:(lia) ltac:(rewrite zlen_zrepeat by lia; lia)) as H. cbv zeta in H.
     destruct (insert_list tr i (zrepeat t n) (wa w, wl w)) as [[v' L'] ret]. cbn [fst snd] in *. destruct H as (H1 & H2 & H3 & H4 & H5 & H6).
@@ -230,14 +230,14 @@ Proof.
       destruct (construct_list KCopy (abs (wb w)) 0 (with_size (ctor_reserve tr (zlen (abs (wb w)))) (zlen (abs (wb w))), use_all (wb w) L1)) as [v' L'].
       cbn [fst snd] in C. destruct C as (C1 & C2 & C3 & C4 & C5).
       assert (Sv : v_size v' = v_size (wb w)) by (size_of_abs C1 C2; exact Lb).
-      unfold post. cbn [wa wb wl].
+      unfold post. cbn [wa wb wl fst snd].
       split; [exact C1|]. split; [exact Ib|]. split; [rewrite C2; reflexivity|]. split; [congruence|]. split; [lia|]. split; [exact Sb|].
       split; [reflexivity|]. intros Ca Cb _ _. split; [exact C4|]. split; [exact Cb|].
       rewrite UL in C5 by (intros j Hj; apply clean_live; assumption).
       replace (v_size v' + v_size (wb w) - v_size (wa w) - v_size (wb w)) with (- v_size (wa w) + (zlen (abs (wb w)) - 0)) by lia.
       eapply lnet_trans; [apply DL; exact Ca | apply lnet_of_ldelta; exact C5].
     + pose proof (empty_vec_spec tr max_n (v_shift (wb w)) F ltac:(apply (vi_wf _ _ Ib))) as C. cbv zeta in C. destruct C as (C1 & C2 & C3).
-      unfold post. cbn [wa wb wl].
+      unfold post. cbn [wa wb wl fst snd].
       split; [exact Ib|]. split; [exact C1|]. split; [rewrite C2; reflexivity|]. split; [exact DB|]. split; [exact Sb|]. split; [cbn; destruct F; lia|].
       split; [reflexivity|]. intros Ca Cb _ _. split; [exact Cb|]. split; [exact C3|]. cbn [v_size].
       replace (v_size (wb w) + 0 - v_size (wa w) - v_size (wb w)) with (- v_size (wa w)) by lia. apply DL. exact Ca.
@@ -261,3 +261,187 @@ Proof.
   - (* comparisons *)
     apply post_same; assumption.
 Qed.
+
+(* ------------------------------------------------------------------------------------------------ either selector *)
+Lemma post_swap tr max_n w w' ret x y sret sh ins :
+  post tr max_n (wswap w) w' ret (x, y) sret sh ins -> post tr max_n w (wswap w') ret (y, x) sret sh ins.
+Proof.
+  unfold post, wswap. cbn [wa wb wl]. intros (A & B & C & D & E & G & H & K).
+  split; [exact B|]. split; [exact A|]. split; [inversion C; reflexivity|]. split; [exact D|]. split; [exact G|]. split; [exact E|].
+  split; [exact H|]. intros Ca Cb Hs Hi. destruct (K Cb Ca Hs Hi) as (K1 & K2 & K3).
+  split; [exact K2|]. split; [exact K1|].
+  replace (v_size (wb w') + v_size (wa w') - v_size (wa w) - v_size (wb w)) with (v_size (wa w') + v_size (wb w') - v_size (wb w) - v_size (wa w)) by lia.
+  exact K3.
+Qed.
+
+Lemma step_ok tr max_n w sel o : fits tr max_n ->
+  vinv tr (wa w) -> vinv tr (wb w) -> v_size (wa w) <= max_n -> v_size (wb w) <= max_n ->
+  op_pre max_n (abs (w_self sel w)) (abs (w_other sel w)) o = true ->
+  step_post tr max_n w sel o.
+Proof.
+  intros F Ia Ib Sa Sb Pre. destruct sel.
+  - pose proof (step_ok_false tr max_n (wswap w) o F Ib Ia Sb Sa Pre) as H.
+    unfold step_post in *. cbv zeta in *. rewrite step_swap, spec_swap. cbn [fst snd wa wb wswap] in *.
+    apply post_swap. destruct (spec_step (abs (wb w), abs (wa w)) false o) as [[x y] r]. exact H.
+  - apply step_ok_false; assumption.
+Qed.
+
+(* ------------------------------------------------------------------------------------------------ sequences *)
+Definition winv (tr : traits) (max_n : Z) (w : world) : Prop :=
+  vinv tr (wa w) /\ vinv tr (wb w) /\ v_size (wa w) <= max_n /\ v_size (wb w) <= max_n.
+Definition wclean (w : world) : Prop := clean (wa w) /\ clean (wb w).
+Definition wabs (w : world) : list Z * list Z := (abs (wa w), abs (wb w)).
+
+Lemma run_ok tr max_n : fits tr max_n -> forall ops w,
+  winv tr max_n w -> seq_scan (op_pre max_n) (wabs w) ops = true ->
+  (* contents and sizes after every operation are those of std::vector; storage accesses stay inside allocations *)
+  contents_of (model_trace tr w ops) = contents_of (spec_trace (wabs w) ops) /\
+  winv tr max_n (run tr w ops) /\ wabs (run tr w ops) = spec_run (wabs w) ops /\
+  cl_bad (wl (run tr w ops)) = cl_bad (wl w) /\
+  (* returned positions as well, unless an erase has to shift a tail *)
+  (seq_scan (fun self _ o => negb (op_erase_shifts self o)) (wabs w) ops = true ->
+   model_trace tr w ops = spec_trace (wabs w) ops) /\
+  (* balanced lifetimes outside the two defect domains *)
+  (wclean w -> seq_scan (fun self _ o => negb (op_erase_shifts self o)) (wabs w) ops = true ->
+   seq_scan (fun _ _ o => negb (op_insert_single o)) (wabs w) ops = true ->
+   wclean (run tr w ops) /\
+   lnet (wl w) (wl (run tr w ops))
+     (v_size (wa (run tr w ops)) + v_size (wb (run tr w ops)) - v_size (wa w) - v_size (wb w))).
+Proof.
+  intros F. induction ops as [|[sel o] r IH]; intros w (Ia & Ib & Sa & Sb) Pre.
+  - cbn. split; [reflexivity|]. split; [exact (conj Ia (conj Ib (conj Sa Sb)))|]. split; [reflexivity|]. split; [reflexivity|].
+    split; [reflexivity|]. intros C _ _. split; [exact C|].
+    replace (v_size (wa w) + v_size (wb w) - v_size (wa w) - v_size (wb w)) with 0 by lia. apply lnet_refl.
+  - cbn [seq_scan] in Pre. apply andb_prop in Pre. destruct Pre as [Pre1 PreR].
+    unfold wabs in Pre1, PreR. cbn [fst snd] in Pre1.
+    assert (Pre1' : op_pre max_n (abs (w_self sel w)) (abs (w_other sel w)) o = true) by (destruct sel; exact Pre1).
+    pose proof (step_ok tr max_n w sel o F Ia Ib Sa Sb Pre1') as SP. unfold step_post in SP. cbv zeta in SP.
+    cbn [model_trace spec_trace run spec_run seq_scan].
+    destruct (step tr w sel o) as [w' ret] eqn:ES. unfold wabs. destruct (spec_step (abs (wa w), abs (wb w)) sel o) as [s' sret] eqn:ESS.
+    cbn [fst snd] in *. destruct SP as (Ia' & Ib' & EA & EB & Sa' & Sb' & ER & LF).
+    specialize (IH w' (conj Ia' (conj Ib' (conj Sa' Sb')))). unfold wabs in IH. rewrite EA in IH. specialize (IH PreR).
+    destruct IH as (T1 & T2 & T3 & T4 & T5 & T6).
+    split. { unfold contents_of in *. cbn [map fst]. rewrite T1. f_equal. rewrite <- EA. reflexivity. }
+    split; [exact T2|]. split; [exact T3|]. split; [congruence|].
+    split.
+    + intros NS. apply andb_prop in NS. destruct NS as [NS1 NSR]. cbn [fst snd] in NS1.
+      rewrite (T5 NSR). rewrite ER by (destruct sel; apply negb_true_iff in NS1; exact NS1). rewrite <- EA. reflexivity.
+    + intros [Ca Cb] NS NI. apply andb_prop in NS. destruct NS as [NS1 NSR]. apply andb_prop in NI. destruct NI as [NI1 NIR].
+      cbn [fst snd] in NS1.
+      destruct (LF Ca Cb ltac:(destruct sel; apply negb_true_iff in NS1; exact NS1) ltac:(apply negb_true_iff in NI1; exact NI1)) as (Ca' & Cb' & LN).
+      destruct (T6 (conj Ca' Cb') NSR NIR) as (CF & LNF). split; [exact CF|].
+      eapply (lnet_trans _ _ _ _ _ LN) in LNF.
+      replace (v_size (wa (run tr w' r)) + v_size (wb (run tr w' r)) - v_size (wa w) - v_size (wb w))
+        with (v_size (wa w') + v_size (wb w') - v_size (wa w) - v_size (wb w) +
+              (v_size (wa (run tr w' r)) + v_size (wb (run tr w' r)) - v_size (wa w') - v_size (wb w'))) by lia.
+      exact LNF.
+Qed.
+
+Lemma world0_ok tr max_n : fits tr max_n -> winv tr max_n (world0 tr) /\ wabs (world0 tr) = ([], []) /\ wclean (world0 tr) /\
+  v_size (wa (world0 tr)) = 0 /\ v_size (wb (world0 tr)) = 0.
+Proof.
+  intros F. pose proof (ctor_reserve_spec tr max_n (Z.quot (t_defcap tr) 2) F) as C. cbv zeta in C. destruct C as (C1 & C2 & C3 & _ & _ & C6).
+  unfold world0, ctor_default, winv, wabs, wclean. cbn [wa wb wl]. rewrite C2, C3. destruct F as (F1 & _).
+  split; [exact (conj C1 (conj C1 (conj F1 F1)))|]. split; [reflexivity|]. split; [exact (conj C6 C6)|]. split; reflexivity.
+Qed.
+
+(* refinement of std::vector by every operation sequence within the preconditions *)
+Theorem cvec_refines_vector_proof tr max_n ops : fits tr max_n -> seq_pre max_n ops = true ->
+  contents_of (model_trace tr (world0 tr) ops) = contents_of (spec_trace ([], []) ops) /\
+  cl_bad (wl (run tr (world0 tr) ops)) = 0 /\
+  (seq_no_erase_shift ops = true -> model_trace tr (world0 tr) ops = spec_trace ([], []) ops).
+Proof.
+  intros F Pre. destruct (world0_ok tr max_n F) as (W & A & C & _). unfold seq_pre in Pre. rewrite <- A in Pre.
+  destruct (run_ok tr max_n F ops (world0 tr) W Pre) as (T1 & _ & _ & T4 & T5 & _).
+  rewrite A in *. split; [exact T1|]. split; [rewrite T4; reflexivity|]. exact T5.
+Qed.
+
+(* every constructed element is destroyed exactly once: for all sequences without a shifting erase and without a
+   single-element insert, followed by the destruction of both vectors *)
+Theorem cvec_lifetime_balanced_proof tr max_n ops : fits tr max_n -> seq_pre max_n ops = true -> seq_life_domain ops = true ->
+  life_balanced (run_all tr ops).
+Proof.
+  intros F Pre Dom. destruct (world0_ok tr max_n F) as (W & A & C & Z1 & Z2). unfold seq_pre in Pre. rewrite <- A in Pre.
+  unfold seq_life_domain in Dom. apply andb_prop in Dom. destruct Dom as [D1 D2]. unfold seq_no_erase_shift in D1. unfold seq_no_insert_single in D2.
+  rewrite <- A in D1, D2.
+  destruct (run_ok tr max_n F ops (world0 tr) W Pre) as (_ & (Ia & Ib & _ & _) & _ & _ & _ & T6).
+  destruct (T6 C D1 D2) as ([Ca Cb] & LN). unfold run_all, finish.
+  set (w := run tr (world0 tr) ops) in *.
+  destruct (destruct_vec_spec tr (wa w) (wl w) Ia) as [_ DA]. specialize (DA Ca).
+  destruct (destruct_vec_spec tr (wb w) (destruct_vec tr (wa w, wl w)) Ib) as [_ DB]. specialize (DB Cb).
+  pose proof (lnet_trans _ _ _ _ _ (lnet_trans _ _ _ _ _ LN DA) DB) as T.
+  unfold lnet in T. destruct T as (E1 & E2 & E3 & E4 & E5). unfold life_balanced.
+  change (wl (world0 tr)) with cled0 in *. cbn in E1, E2, E3, E4, E5. unfold n_ctor_c in E5.
+  split; [exact E1|]. split; [exact E2|]. split; [exact E3|]. split; [exact E4|]. lia.
+Qed.
+
+(* ------------------------------------------------------------------------------------------------ refutations *)
+Lemma life_balancedb_iff L : life_balanced L <-> life_balancedb L = true.
+Proof.
+  unfold life_balanced, life_balancedb. split.
+  - intros (A & B & C & D & E). rewrite A. repeat (apply andb_true_intro; split); try reflexivity; lia.
+  - intros H. repeat (apply andb_prop in H; destruct H as [H ?]). destruct (cl_errs L); [|discriminate]. repeat split; lia.
+Qed.
+
+Definition tr_small : traits := mkTraits 2 (2 ^ 39) 2 true true.     (* 256-byte elements, default traits: first bucket 1 *)
+Definition ops_erase : list (bool * op) :=
+  [(false, OPush KValue 1); (false, OPush KValue 2); (false, OPush KValue 3); (false, OErase 0)].
+Definition ops_erase_range : list (bool * op) := [(false, OGrowByGen 6 10); (false, OEraseRange 1 3)].
+Definition ops_insert : list (bool * op) :=
+  [(false, OPush KValue 1); (false, OPush KValue 2); (false, OPush KValue 3); (false, OInsert KCopy 1 9)].
+
+Lemma fits_small : fits tr_small 1000.
+Proof. unfold fits, tr_small, max_buffers. cbn. repeat split; try lia; discriminate. Qed.
+
+(* three emplace_back, erase(begin()), both vectors destroyed: 3 constructions, 2 destructor calls, the moved-from
+   tail element is lost with its storage; contents [2;3] are right, the returned position (2 = new end) is not (0) *)
+Lemma refuted_erase :
+  fits tr_small 1000 /\ seq_pre 1000 ops_erase = true /\
+  contents_of (model_trace tr_small (world0 tr_small) ops_erase) = contents_of (spec_trace ([], []) ops_erase) /\
+  model_trace tr_small (world0 tr_small) ops_erase <> spec_trace ([], []) ops_erase /\
+  ~ life_balanced (run_all tr_small ops_erase) /\
+  final_obs (run_all tr_small ops_erase) = [3; 0; 0; 0; 2; 2; 1; 1; 0; 0; 0; 0; 0].
+Proof.
+  split; [exact fits_small|]. split; [vm_compute; reflexivity|]. split; [vm_compute; reflexivity|].
+  split; [vm_compute; discriminate|]. split; [|vm_compute; reflexivity].
+  rewrite life_balancedb_iff. vm_compute. discriminate.
+Qed.
+
+Lemma refuted_erase_range :
+  seq_pre 1000 ops_erase_range = true /\ ~ life_balanced (run_all tr_small ops_erase_range) /\
+  final_obs (run_all tr_small ops_erase_range) = [6; 0; 0; 0; 3; 4; 2; 2; 0; 0; 0; 0; 0].
+Proof.
+  split; [vm_compute; reflexivity|]. split; [|vm_compute; reflexivity].
+  rewrite life_balancedb_iff. vm_compute. discriminate.
+Qed.
+
+(* three emplace_back, insert(begin()+1, value): the placement new runs over the moved-from element *)
+Lemma refuted_insert :
+  seq_pre 1000 ops_insert = true /\ model_trace tr_small (world0 tr_small) ops_insert = spec_trace ([], []) ops_insert /\
+  ~ life_balanced (run_all tr_small ops_insert) /\
+  final_obs (run_all tr_small ops_insert) = [4; 1; 0; 0; 2; 4; 0; 0; 1; 0; 0; 0; 0].
+Proof.
+  split; [vm_compute; reflexivity|]. split; [vm_compute; reflexivity|]. split; [|vm_compute; reflexivity].
+  rewrite life_balancedb_iff. vm_compute. discriminate.
+Qed.
+
+(* C32 as stated (all sequences, returned positions and lifetimes included) *)
+Definition full_statement : Prop :=
+  forall tr max_n ops, fits tr max_n -> seq_pre max_n ops = true ->
+    model_trace tr (world0 tr) ops = spec_trace ([], []) ops /\ life_balanced (run_all tr ops).
+
+Lemma full_statement_false : ~ full_statement.
+Proof.
+  intros H. destruct refuted_erase as (F & P & _ & _ & NB & _). destruct (H tr_small 1000 ops_erase F P) as [_ B]. exact (NB B).
+Qed.
+
+(* a sequence inside both domains that crosses several bucket boundaries, with copy / move / swap *)
+Definition ops_nonvacuous : list (bool * op) :=
+  [(false, OGrowByGen 5 1); (false, OPush KCopy 6); (false, OInsertN 2 3 7); (true, ORecreate CCopy); (false, OEraseRange 6 9);
+   (false, OPop); (true, OSwap); (false, OResizeVal 12 8); (true, OMoveAssign); (false, OShrink); (true, OAssignN 3 9); (true, OErase 2);
+   (false, OGrowBy 2); (true, OPush KMove 4)].
+Lemma nonvacuous :
+  fits tr_small 1000 /\ seq_pre 1000 ops_nonvacuous = true /\ seq_life_domain ops_nonvacuous = true /\
+  spec_run ([], []) ops_nonvacuous = ([0; 0], [9; 9; 4]) /\
+  final_obs (run_all tr_small ops_nonvacuous) = [10; 16; 1; 3; 4; 27; 0; 0; 0; 0; 0; 0; 0].
+Proof. split; [exact fits_small|]. repeat split; vm_compute; reflexivity. Qed.
